@@ -23,7 +23,8 @@ EXPLANATION = (
     ' Also: (R3b) every retry loop around MetadataManager.commit rebuilds both arguments inside the iteration; (R7/R8) the local lock keeps its shape (non-blocking flock, the lock file is never unlinked in flock mode); (R9) an ambiguous failure is never retried as a clean conflict (handler order incl. class hierarchy).'
     ' (R10) nothing may raise out of commit() after the commit point (shared with C04.R2: a commit that raised is not reflected); (R11) success means committed: every normal exit of Transaction.commit() passed a commit-point call or is the empty-transaction return.'
     ' (R12) who-may-delete census (shared with C09.R3): no unsanctioned deleter can remove files of an acknowledged commit; (R13) every handler an AmbiguousCommitError can flow into re-raises (an ambiguous commit is never retried).'
-    ' R2 also requires every definition of the validated object to be a read under the lock (or None).')
+    ' R2 also requires every definition of the validated object to be a read under the lock (or None).'
+    " (R16) one lock per table: the lock provider's path is the backend's canonical resolution itself (C19.R10); (R17) a snapshot deletion repoints to the latest committed survivor (C09.R4).")
 NOT_DECIDED = ("that flock / the S3 CAS lock actually excludes; the final-state-equals-serial-order statement "
                "over interleavings; linearity of the surviving chain at run time")
 
@@ -62,6 +63,13 @@ def check(ctx: Ctx) -> None:
     ctx.shared(c20_r3, "C20.R3", "C01.R14", "the conditional pointer PUT is never retried")
     from .c08 import r9_cas_capability_consistent
     r9_cas_capability_consistent(ctx, "C01.R15")
+    # mutual exclusion needs ONE lock per table, whoever opens it: the lock's identity is the canonical location itself
+    from .c19 import lock_identity_canonical
+    lock_identity_canonical(ctx, "C01.R16")
+    # a snapshot deletion repoints `current` to the most recently COMMITTED survivor (log order, not timestamps): repointing to
+    # an older one silently drops acknowledged commits from the chain
+    from .c09 import r4 as c09_r4
+    ctx.shared(c09_r4, "C09.R4", "C01.R17", "deleting the current snapshot falls back to the latest committed survivor")
 
 
 def r13(ctx: Ctx) -> None:
